@@ -42,7 +42,7 @@ impl Check for C18 {
         "C18"
     }
     fn rule(&self) -> String {
-        "indices below 12 x sequences: EVERY sample sequence up to length 6 (quick) / 7 (thorough) over a 4- (5-) state alphabet in 12 fixtures (6 space kinds x {alphabet world, obstacle-free}); remaining indices: scenario i = space, world (obstacle-free for the exact clauses, obstructed for soundness), connection radius, a sample budget N fixed by the virtual clock (a stall at the N-th sample, N from 1 up), sampling passthrough or scripted over a state alphabet, two problems, and a call history (construct, construct again, solve, replace problem, solve); the reference model replays the recorded sample stream and validity answers; distinct = distinct scenario hash; non-trivial = the roadmap has at least 2 milestones and a query executed".into()
+        "indices below 12 x sequences: EVERY sample sequence up to length 6 (quick) / 7 (thorough) over a 4- (5-) state alphabet in 12 fixtures (6 space kinds x {alphabet world, obstacle-free}); remaining indices: scenario i = space, world (obstacle-free for the exact clauses, obstructed for soundness), connection radius, a sample budget N fixed by the virtual clock (a stall at the N-th sample, N from 1 up), sampling passthrough or scripted over a state alphabet, two problems, and a call history (construct, construct again, solve, replace problem, solve; a query interrupted by a zero time limit; slow queries; one scenario in twenty has the user's validity checker unwind inside construction, caught by the caller who goes on); connection radius exactly an alphabet distance in half of the fixtures; the reference model replays the recorded sample stream and validity answers; distinct = distinct scenario hash; non-trivial = the roadmap has at least 2 milestones and a query executed".into()
     }
     fn default_runs(&self, tier: Tier) -> u64 {
         match tier {
